@@ -179,12 +179,12 @@ CAT_KINDS = {"module": {2}, "program": {2}, "procedure": {12}, "type": {5}, "int
              "binding": {6}}
 
 
-def check_program(text, expect, members):
+def check_program(text, expect, members, fname="g.f90"):
     """Open the program in a real server and compare documentSymbol / workspace/symbol with the expectation."""
     from replay.harness import Workspace, session
-    ws = Workspace({"g.f90": text})
+    ws = Workspace({fname: text})
     try:
-        uri = ws.uri("g.f90")
+        uri = ws.uri(fname)
         queries = ["", "sb", "FN", "ty", "1", "zzz"]
         msgs = [{"jsonrpc": "2.0", "method": "textDocument/didOpen", "params": {"textDocument": {"uri": uri}}},
                 {"jsonrpc": "2.0", "id": 1, "method": "textDocument/documentSymbol", "params": {"textDocument": {"uri": uri}}}]
@@ -248,8 +248,60 @@ def check_program(text, expect, members):
         ws.close()
 
 
+def fixed_form_program(rnd: random.Random):
+    """Fixed-form source with label-terminated DO loops (shared labels, `label END DO`, labels reused across
+    procedures) and names starting with construct keywords; returns (text, expect, members)."""
+    L, expect = [], []
+
+    def emit(t, label=""):
+        L.append(f"{label:<5} " + t if label else "      " + t)
+        return len(L)
+
+    n_proc = rnd.randint(2, 4)
+    for p in range(n_proc):
+        nm = f"fx{p + 1}"
+        s = emit(f"subroutine {nm}(n)")
+        emit("integer n, i, j, k, x")
+        emit("real block_a(10), do_b(10), where_c(10)")
+        for _ in range(rnd.randint(1, 3)):
+            lab = rnd.choice(["10", "20", "100"])
+            c = rnd.random()
+            if c < 0.35:      # nest sharing one label
+                emit(f"do {lab} i = 1, n")
+                emit(f"do {lab} j = 1, n")
+                if rnd.random() < 0.5:
+                    emit(f"do {lab} k = 1, n")
+                emit("x = x + 1")
+                emit("continue", lab)
+            elif c < 0.6:     # labelled END DO
+                emit(f"do {lab} i = 1, n")
+                emit("block_a(i) = 0.0")
+                emit("end do", lab)
+            elif c < 0.8:     # distinct labels
+                emit("do 30 i = 1, n")
+                emit("do 40 j = 1, n")
+                emit("do_b(j) = 1.0")
+                emit("continue", "40")
+                emit("where_c(i) = 2.0", "30")
+            else:
+                emit("do i = 1, n")
+                emit("block_a(i) = 1.0")
+                emit("enddo")
+        e = emit(f"end subroutine {nm}")
+        expect.append({"name": nm, "cat": "procedure", "container": None, "sline": s, "eline": e})
+    return "\n".join(L) + "\n", expect, {}
+
+
 def run(tier: str, seed: int):
     n = 0
+    for k in range(40 if tier == "thorough" else 10):
+        text, expect, members = fixed_form_program(random.Random(seed * 977 + k))
+        n += 1
+        w = check_program(text, expect, members, fname="g.f")
+        if w:
+            w["program"] = text
+            w["generator_seed"] = f"fixed-form {seed * 977 + k}"
+            return w, n
     for k in range(120 if tier == "thorough" else 30):
         g = Gen(random.Random(seed * 1000 + k))
         text, expect, members = g.generate()
